@@ -443,7 +443,7 @@ const HOSTILE: &[(&str, HostileFn)] = &[
 const AS_LIMIT: u64 = 4 << 30; // 4 GiB address space
 /// CPU limit of a child: small inputs (non-termination probe) / large inputs
 const CPU_LIMIT_SMALL_S: u64 = 5;
-const CPU_LIMIT_LARGE_S: u64 = 60;
+const CPU_LIMIT_LARGE_S: u64 = 40;
 const WALL_LIMIT_S: u64 = 240;
 /// inputs below this size that exhaust the CPU limit are judged as non-termination
 const SMALL_INPUT: usize = 4096;
@@ -746,7 +746,7 @@ pub fn generate(ctx: &Ctx) {
   let q = ctx.quick();
   let mut hostile: Vec<(&'static str, String)> = Vec::new();
   let sizes = |q_sizes: &[usize], t_sizes: &[usize]| -> Vec<usize> { if q { q_sizes.to_vec() } else { t_sizes.to_vec() } };
-  for n in sizes(&[1 << 20, 64 << 20], &[1 << 20, 64 << 20, 1 << 30, 5 << 30]) {
+  for n in sizes(&[1 << 20, 64 << 20], &[1 << 20, 64 << 20, 5 << 30]) {
     hostile.push((HOSTILE[0].0, format!("zeros-gzip:{n}")));
     hostile.push((HOSTILE[1].0, format!("zeros-zlib:{n}")));
   }
@@ -761,12 +761,12 @@ pub fn generate(ctx: &Ctx) {
   for what in ["did", "did-colons", "did-pct", "did-url-query", "timestamp-fraction", "url", "b64", "base58", "network", "integrity", "jws", "jws-dots", "sd-jwt-tildes", "sd-jwt-disclosures"] {
     let cap = if what == "base58" || what == "sd-jwt-disclosures" { 100_000 } else { usize::MAX };
     let heavy = ["did", "jws", "url", "timestamp-fraction"].contains(&what);
-    for n in sizes(if heavy { &[100_000, 4_000_000] } else { &[100_000] }, &[100_000, 4_000_000, 64_000_000]) {
+    for n in sizes(if heavy { &[100_000, 4_000_000] } else { &[100_000] }, if heavy { &[100_000, 4_000_000, 64_000_000] } else { &[100_000, 1_000_000] }) {
       hostile.push((HOSTILE[4].0, format!("long:{what}:{}", n.min(cap))));
     }
   }
   for what in ["methods", "same-methods", "controllers", "types", "keys", "dup-keys"] {
-    for n in sizes(&[1000], &[1000, 20_000]) {
+    for n in sizes(&[1000], &[1000, 5000]) {
       hostile.push((HOSTILE[5].0, format!("many:{what}:{n}")));
     }
   }
@@ -788,7 +788,7 @@ pub fn generate(ctx: &Ctx) {
   }
   ctx.part("census: hostile sizes (child process)", json!({"cases": cases.len(), "rlimit_as_bytes": AS_LIMIT, "rlimit_cpu_s_small_inputs": CPU_LIMIT_SMALL_S, "rlimit_cpu_s_large_inputs": CPU_LIMIT_LARGE_S, "wall_limit_s": WALL_LIMIT_S, "generators": HOSTILE.iter().map(|h| h.0).collect::<Vec<_>>()}));
   ctx.bound("hostile_rlimit_as", AS_LIMIT);
-  ctx.assume("hostile family: the child is this same binary; RLIMIT_AS = 4 GiB, RLIMIT_CPU = 5 s for inputs below 4 KiB and 60 s otherwise; an abort (allocation failure, stack overflow, SIGSEGV) is a violation; exhausting the CPU limit is a violation only when the input is smaller than 4 KiB (non-termination), otherwise it is recorded and not judged");
+  ctx.assume("hostile family: the child is this same binary; RLIMIT_AS = 4 GiB, RLIMIT_CPU = 5 s for inputs below 4 KiB and 40 s otherwise; an abort (allocation failure, stack overflow, SIGSEGV) is a violation; exhausting the CPU limit is a violation only when the input is smaller than 4 KiB (non-termination), otherwise it is recorded and not judged");
   let _ = Local::default();
   let _ = In::S("");
 }
